@@ -48,7 +48,7 @@ func (c *Client) Subscribe(ctx context.Context, params *SubscriptionParameters, 
 	stats.Subscription().Add("Count", 1)
 
 	// start the publish loop if it isn't already running
-	c.resumech <- struct{}{}
+	c.resumeSubscriptions(ctx)
 
 	sub := &Subscription{
 		SubscriptionID:            res.SubscriptionID,
@@ -349,18 +349,24 @@ func (c *Client) notifySubscription(ctx context.Context, sub *Subscription, noti
 // pauseSubscriptions suspends the publish loop by signalling the pausech.
 // It has no effect if the publish loop is already paused.
 func (c *Client) pauseSubscriptions(ctx context.Context) {
+	// The flag holds the requested state so that the most recent of several
+	// pause and resume calls wins. The channel only wakes the publish loop
+	// up, and a full channel already guarantees a wake-up, so the send must
+	// not block: callers hold locks the publish loop needs.
+	c.subsPaused.Store(true)
 	select {
-	case <-ctx.Done():
 	case c.pausech <- struct{}{}:
+	default:
 	}
 }
 
 // resumeSubscriptions restarts the publish loop by signalling the resumech.
 // It has no effect if the publish loop is not paused.
 func (c *Client) resumeSubscriptions(ctx context.Context) {
+	c.subsPaused.Store(false)
 	select {
-	case <-ctx.Done():
 	case c.resumech <- struct{}{}:
+	default:
 	}
 }
 
@@ -370,7 +376,6 @@ func (c *Client) monitorSubscriptions(ctx context.Context) {
 	dlog := debug.NewPrefixLogger("sub: ")
 	defer dlog.Print("done")
 
-publish:
 	for {
 		select {
 		case <-ctx.Done():
@@ -379,27 +384,25 @@ publish:
 
 		case <-c.resumech:
 			dlog.Print("resume")
-			// ignore since not paused
+			// wake-up only, the state is in c.subsPaused
 
 		case <-c.pausech:
 			dlog.Print("pause")
-			for {
+			// wake-up only, the state is in c.subsPaused
+
+		default:
+			if c.subsPaused.Load() {
+				// wait until the state may have changed
 				select {
 				case <-ctx.Done():
 					dlog.Print("pause: ctx.Done()")
 					return
-
 				case <-c.resumech:
-					dlog.Print("pause: resume")
-					continue publish
-
 				case <-c.pausech:
-					dlog.Print("pause: pause")
-					// ignore since already paused
 				}
+				continue
 			}
 
-		default:
 			// send publish request and handle response
 			//
 			// publish() blocks until a PublishResponse
